@@ -462,7 +462,9 @@ class RelayMode(vlib.Mode):
         F, _ = self._walk(case, out)
         res = []
         for prop, sig, desc in F:
-            if self.focus is None or prop == self.focus or sig == "relay-crash-or-hang":
+            # "never success to a bad request" (C11) is also what the per-endpoint grant checks of C01 / C09 / C10 say
+            also_c11 = self.focus == "C11" and sig in ("code-for-invalid-bearer", "admin-call-granted-without-right", "status-granted-without-right", "bad-params-accepted")
+            if self.focus is None or prop == self.focus or sig == "relay-crash-or-hang" or also_c11:
                 res.append((sig, desc))
         return res
 
